@@ -426,6 +426,8 @@ func (o *Outcome) Fired() []string {
 			res = append(res, e.Kind+"."+site+"."+e.Decision)
 		case e.Decision == "kill":
 			res = append(res, e.Kind+"."+e.Site+".kill")
+		case e.Decision == "panic":
+			res = append(res, "yield."+e.Site+".panic")
 		case strings.HasPrefix(e.Decision, "closefault"):
 			res = append(res, "closefault."+e.Site)
 		case e.Decision == "data+eof":
